@@ -2,15 +2,12 @@ SPECIFICATION GSpec
 CONSTANTS
   Sess = {"s1"}
   Reqs = {"r1"}
-  Gets = {"g1","g2"}
-  Prime <- PrimeAll
-  Store = TRUE
-  Json = FALSE
-  Stateless = FALSE
+  Gets = {"g1","g2","g3"}
+  Cfgs <- CfgStoreNoPrime
   MaxEmit = 1
   MaxSreq = 0
-  MaxSa = 0
-  Gates = TRUE
+  MaxSa = 1
+  Gates = FALSE
 VIEW MCView
 INVARIANTS ResumeExact IdsDense IdStable StoreBeforeDeliver CompleteAtEnd CompleteAtRest FinalObtainable RefusedOnlyOnConflict ResponseOnOwnExchange NestedRouting NoCrossSession RoutingEntryLifecycle LockDiscipline
 CHECK_DEADLOCK FALSE
